@@ -484,8 +484,20 @@ func ParentMain(d Driver, a *Args) int {
 	cov["seeds"] = 1
 	cov["workers"] = workers
 	cov["items"] = total.Counters["items"]
+	if knownLines == nil {
+		knownLines = []string{}
+	}
 	cov["known_findings"] = knownLines
-	cov["notes"] = uniq(total.Notes)
+	notes := uniq(total.Notes)
+	if notes == nil {
+		notes = []string{}
+	}
+	if n := total.Counters["items_skipped_resource_exhaustion"]; n > 0 {
+		notes = append(notes, fmt.Sprintf("%d item(s) skipped after a worker ran out of memory inside the resource fence", n))
+	}
+	cov["notes"] = notes
+	cov["seed_used"] = a.Seed
+	cov["tree"] = a.Tree
 	d.Describe(ev, total)
 	if err := os.MkdirAll(filepath.Dir(a.Evidence), 0o755); err == nil {
 		b, _ := json.MarshalIndent(ev, "", " ")
